@@ -30,11 +30,15 @@ pub struct Offer {
     /// PIPE scenario only: how the pipe re-segments what this call emitted
     pub pipe_cut: u8,
     pub pipe_hold: u8,
+    /// C05 only: `cap` is offered as it is even when it is below the documented
+    /// minimum (a safe `&mut str` / `String` sink must stay valid even then;
+    /// nothing else is expected of such a call)
+    pub submin: bool,
 }
 
 impl Offer {
     pub fn large() -> Offer {
-        Offer { cap: if crate::gen::tiny() { 96 } else { 1 << 14 }, kind: K_SLICE, fill: 0, phase: 0, dst_off: 0, src_off: 0, query: false, pipe_cut: 0, pipe_hold: 0 }
+        Offer { cap: if crate::gen::tiny() { 96 } else { 1 << 14 }, kind: K_SLICE, fill: 0, phase: 0, dst_off: 0, src_off: 0, query: false, pipe_cut: 0, pipe_hold: 0, submin: false }
     }
 }
 
@@ -98,6 +102,8 @@ pub struct Profile {
     pub pipe: bool,
     /// extra capacity thresholds worth hitting (e.g. NCR_EXTRA for encoders)
     pub thresholds: Vec<usize>,
+    /// C05: now and then offer a safe sink below the documented minimum
+    pub submin: bool,
 }
 
 impl Profile {
@@ -128,6 +134,7 @@ impl Profile {
             query_pct: if rng.chance(1, 4) { 10 } else { 0 },
             pipe: false,
             thresholds: Vec::new(),
+            submin: false,
         }
     }
 }
@@ -210,7 +217,13 @@ impl<'a> PrngSource<'a> {
         } else {
             (0, 0)
         };
-        Offer { cap, kind, fill, phase, dst_off, src_off, query, pipe_cut, pipe_hold }
+        let mut o = Offer { cap, kind, fill, phase, dst_off, src_off, query, pipe_cut, pipe_hold, submin: false };
+        if self.profile.submin && (kind == K_STR || kind == K_STRING) && self.rng.chance(1, 5) {
+            o.submin = true;
+            o.query = false;
+            o.cap = self.rng.below(min.max(1));
+        }
+        o
     }
 
     fn draw_threshold(&mut self, min: usize) -> usize {
@@ -355,7 +368,7 @@ impl OpSource for ReplaySource {
 pub fn offer_to_json(o: &Offer) -> Value {
     json!({"cap": o.cap, "kind": o.kind, "fill": o.fill, "phase": o.phase,
            "dst_off": o.dst_off, "src_off": o.src_off, "query": o.query,
-           "pipe_cut": o.pipe_cut, "pipe_hold": o.pipe_hold})
+           "pipe_cut": o.pipe_cut, "pipe_hold": o.pipe_hold, "submin": o.submin})
 }
 
 fn offer_from_json(v: &Value) -> Option<Offer> {
@@ -369,6 +382,7 @@ fn offer_from_json(v: &Value) -> Option<Offer> {
         query: v.get("query").and_then(|x| x.as_bool()).unwrap_or(false),
         pipe_cut: v.get("pipe_cut").and_then(|x| x.as_u64()).unwrap_or(0) as u8,
         pipe_hold: v.get("pipe_hold").and_then(|x| x.as_u64()).unwrap_or(0) as u8,
+        submin: v.get("submin").and_then(|x| x.as_bool()).unwrap_or(false),
     })
 }
 
